@@ -58,8 +58,22 @@ def gen(rng, k):
     stop = 1000 + cycle * rng.choice([2, 3]) + rng.choice([1000, cycle // 2])
     sc = dict(kind='dm1', dll='j1939-21', lamps=lamps, dtcs=dtcs, cycle=cycle, stop=stop, horizon=stop + 3 * cycle + transfer + 500000,
               lat=[rng.choice([0, 1, 5000])], nrecv=rng.choice([1, 2]))
-    fam = k % 5
-    if fam == 1:
+    # receivers: operational CAs, or CAs that never claimed an address (a DM1 is a broadcast: passive listeners get it too)
+    sc['recv_kinds'] = [rng.choice(['normal', 'normal', 'unclaimed']) for _ in range(sc['nrecv'])]
+    # the first subscriber of the first receiver's Dm1 object sorts / empties what it is handed; the next subscriber of the same
+    # object must still get what was sent
+    sc['mutating_first'] = rng.random() < 0.35
+    fam = k % 6
+    if fam == 5:
+        # a second start_send on the same Dm1 object, other callback, other cycle time: both keep running until their own stop_send
+        sc['dtcs'] = sc['dtcs'][:1]
+        sc['cycle'] = rng.choice([100000, 250000])
+        sc['second_start'] = rng.choice([10000, 130000, 260000])
+        sc['cycle2'] = rng.choice([70000, 170000, 400000])
+        sc['dtcs2'] = [[rng.getrandbits(19), rng.getrandbits(5), rng.getrandbits(7)]]
+        sc['stop'] = 1000 + sc['cycle'] * rng.choice([5, 7]) + 1000
+        sc['horizon'] = sc['stop'] + 1_500_000
+    elif fam == 1:
         # the application supplies different data every cycle (occurrence counts go up)
         sc['varying'] = True
     elif fam == 2 and n >= 2:
@@ -94,8 +108,15 @@ def runner(sc):
         got = []
         for i in range(sc['nrecv']):
             B = stack.Stack(sim, sc['dll'], 3)
-            cb = B.add_ca(0x2000 + i, 0x30 + i, True)
+            cb = B.add_ca(0x2000 + i, 0x30 + i, sc.get('recv_kinds', ['normal'] * 8)[i] == 'normal')
             dm = j1939.Dm1(cb)
+            if sc.get('mutating_first') and i == 0:
+                def mutate(sa, lamps, dtcs, ts):
+                    dtcs.sort(key=lambda d: (d['spn'], d['fmi'], d['oc']))
+                    if dtcs:
+                        dtcs.pop()
+                    lamps.clear()
+                dm.subscribe(mutate)
             dm.subscribe(lambda sa, lamps, dtcs, ts, i=i: got.append((sim.now, i, sa, [lamps[k] for k in KEYS], [[d['spn'], d['fmi'], d['oc']] for d in dtcs])))
             recv.append(B)
         dmA = j1939.Dm1(ca)
@@ -127,6 +148,12 @@ def runner(sc):
                 return True
             sim.at(1000, lambda: A.ecu.add_timer(sc['cycle'] / 1e6, stopper))
         sim.at(1000, lambda: dmA.start_send(src, sc['cycle'] / 1e6))
+        if sc.get('second_start'):
+            def src2():
+                events.append(('call2', sim.now, [list(d) for d in sc['dtcs2']]))
+                return (dict(zip(KEYS, sc['lamps'])), [dict(spn=s, fmi=f, oc=o) for s, f, o in sc['dtcs2']])
+            sim.at(1000 + sc['second_start'], lambda: dmA.start_send(src2, sc['cycle2'] / 1e6))
+            sim.at(sc['stop'] + 400000, lambda: dmA.stop_send(src2))
         if sc.get('stop_mode') not in ('timer', 'self'):
             sim.at(sc['stop'], stop)
         sim.run_until(sc['horizon'])
@@ -140,10 +167,15 @@ def runner(sc):
     return res
 
 
+def g_before_stop(res, sc, i, first):
+    """deliveries at receiver i of what the FIRST callback supplied (with a second start_send running as well)"""
+    return sum(1 for g in res.got if g[1] == i and g[4] in first)
+
+
 def oracle(sc, res):
     v = []
     exp_l = sc['lamps']
-    supplied = [e[2] for e in res.events if e[0] == 'call']
+    supplied = [e[2] for e in res.events if e[0] in ('call', 'call2')]
     for (t, i, sa, lamps, dtcs) in res.got:
         # every DM1 that arrives is what the callback supplied at ONE of its calls — never a blend of two cycles
         if sa != 0x20 or lamps != exp_l or dtcs not in supplied:
@@ -170,9 +202,13 @@ def oracle(sc, res):
     if len(before) != exp_cycles:
         v.append(dict(kind='dm1-cycles', expected=exp_cycles, observed=len(before)))
     per = {}
+    first = [e[2] for e in res.events if e[0] == 'call']
     for g in res.got:
-        per[g[1]] = per.get(g[1], 0) + 1
+        if not sc.get('second_start') or g[4] in first:
+            per[g[1]] = per.get(g[1], 0) + 1
     for i in range(sc['nrecv']):
+        if sc.get('second_start') and g_before_stop(res, sc, i, first) is not None:
+            per[i] = g_before_stop(res, sc, i, first)
         if per.get(i, 0) != len(before):
             v.append(dict(kind='dm1-deliveries', receiver=i, expected=len(before), observed=per.get(i, 0)))
     for j, js in enumerate(res.job):
@@ -204,7 +240,7 @@ def run(out, tier, rng, work):
         seen.add(kind)
         out.violation('%s: input %s gives %s, expected %s' % (kind, inp, got, exp), dict(kind=kind),
                       dict(broke='oracle', oracle=kind, input=inp, observed=got, expected=exp))
-    nsc = 25 if tier == 'quick' else 300
+    nsc = 42 if tier == 'quick' else 360
     worst = {}
     for k in range(nsc):
         sc = gen(rng, k)
